@@ -64,6 +64,13 @@ VEC_OPERANDS = [
     ("slice-of-larger", ["slice", _v, 1, 4, None]),
     ("row-of-matrix", ["row", _A, 1]),
     ("vpow-node", ["vpow", _y, 2]),
+    # the same data in other legal representations: unsigned / narrow integer dtypes, non-contiguous views
+    ("arr-uint8", ["arr", [3, 2, 5], "uint8"]),
+    ("arr-int8", ["arr", [3, -2, 5], "int8"]),
+    ("arr-uint16", ["arr", [3, 2, 5], "uint16"]),
+    ("arr-bool", ["arr", [1, 0, 1], "bool_"]),
+    ("arr-strided-view", ["arr", [1.5, -2.0, 0.5], "strided"]),
+    ("arr-reversed-view", ["arr", [1.5, -2.0, 0.5], "fliplr"]),
     ("arr-size1", ["arr", [2.0]]),
     ("vector-size1", _w),
     # mismatches (both sizes > 1 and unequal, or wrong dimensionality)
@@ -83,6 +90,13 @@ MAT_OPERANDS = [
     ("arr0d", ["raw", 1.25, "arr0d"]),
     ("arr2", ["arr2", [[1.5, -2.0, 0.5], [2.0, 4.0, -1.0]]]),
     ("list2", ["list2", [[1.5, -2.0, 0.5], [2.0, 4.0, -1.0]]]),
+    ("arr2-fortran-order", ["arr2", [[1.5, -2.0, 0.5], [2.0, 4.0, -1.0]], "F"]),
+    ("arr2-transposed-view", ["arr2", [[1.5, -2.0, 0.5], [2.0, 4.0, -1.0]], "T"]),
+    ("arr2-flipud-view", ["arr2", [[1.5, -2.0, 0.5], [2.0, 4.0, -1.0]], "flipud"]),
+    ("arr2-fliplr-view", ["arr2", [[1.5, -2.0, 0.5], [2.0, 4.0, -1.0]], "fliplr"]),
+    ("arr2-strided-view", ["arr2", [[1.5, -2.0, 0.5], [2.0, 4.0, -1.0]], "strided"]),
+    ("arr2-uint8", ["arr2", [[3, 2, 5], [2, 4, 1]], "uint8"]),
+    ("arr2-int16", ["arr2", [[3, -2, 5], [2, 4, -1]], "int16"]),
     ("matrix", _Bm),
     ("same-matrix", _A),
     ("mexpr", _Ae),
@@ -136,6 +150,10 @@ def operand_matrix():
         ("TINY:x.dot(Q @ x)", "S", ["dotQ", _x, Qt, _x]),
     ]:
         out.append((nm, kind_, node_, False))
+    for form in ("F", "T", "flipud", "strided"):
+        out.append((f"Q3x3<{form}> @ vec3", "V", ["mv", Q3, _x, form], False))
+        out.append((f"Q3x3<{form}> @ vexpr3", "V", ["mv", Q3, _xe, form], False))
+    out.append(("Q3x3<uint8> @ vec3", "V", ["mv", [[2, 1, 0], [1, 3, 4], [0, 5, 6]], _x, "uint8"], False))
     for nm, Qm, vec, mm in [
         ("Q3x3 @ vec3", Q3, _x, False),
         ("Q2x3 @ vec3", Q3[:2], _x, False),
